@@ -1,5 +1,4 @@
 package main
 
-func genMsgs(repo, out string)    {}
 func genTables(repo, out string)  {}
 func genGlobals(repo, out string) {}
